@@ -1,6 +1,288 @@
-/- C15 — model not written yet (stub so that the driver target exists). -/
-namespace Nitime.C15
+/-
+C15 — analyzers and file readers as unit-aware front ends: model of the AXIS plumbing
+(core Lean only).
 
-def handle (_args : List String) : String := "bad-op"
+* `Series`        a `TimeSeries` seen from outside: t0 and sampling interval in whole picoseconds,
+                  number of samples, display unit, and the binary64 `sampling_rate` (Hz) it holds.
+* `mkSeries`      `TimeSeries.__init__` for the argument kinds the analyzers use (interval as a time
+                  object or a bare number, rate as a `Frequency`, t0 as a time object, unit or its
+                  default `'s'`), branch by branch, on exact binary64 (`Nitime.F64`).
+* `outputSeries`  a `SeriesCall` descriptor (GENERATED from the source, see
+                  `Nitime/Generated/SeriesCalls.lean`) applied to a source series.
+* `rateHz`        Fs = 10¹² / Δ_ps.            `rateOfInterval` the float the constructor stores.
+* `timeAt`        the k-th entry of `.time` (`UniformTime(length, t0, sampling_interval)`).
+* `concatData`/`concatenate`   `concatenate_time_series`.
+* `selectVoxels`  `data[coords[0], coords[1], coords[2]]` on a C-ordered 4-d volume.
+-/
+import Nitime.Model.F64
+import Nitime.Model.Units
+import Nitime.Model.Proto
+import Nitime.Generated.Units
+import Nitime.Model.C15Types
+import Nitime.Generated.SeriesCalls
+
+namespace Nitime.C15
+open Nitime
+
+structure Axis where
+  t0 : Int
+  dt : Int
+  n : Nat
+  unit : TimeUnit
+  deriving DecidableEq, Repr
+
+structure Series where
+  ax : Axis
+  /-- value of `.sampling_rate` (a `Frequency`, Hz), exact binary64 -/
+  fs : Rat
+  deriving DecidableEq, Repr
+
+inductive Err where
+  | valueError        -- invalid time specification
+  | unsupported       -- descriptor outside the modelled language
+  | unknownCall
+  deriving DecidableEq, Repr
+
+/-- the sampling rate in Hz that belongs to an axis: 10¹² ps per second over the interval in ps.
+The display unit does not enter. -/
+def rateHz (a : Axis) : Rat := (10 ^ 12 : Rat) / (a.dt : Rat)
+
+/-- k-th entry of `.time`: `np.arange(t0, t0 + n*dt, dt)[k]` -/
+def timeAt (a : Axis) (k : Nat) : Int := a.t0 + (k : Int) * a.dt
+
+def cf (u : TimeUnit) : Rat := F64.ofInt (Generated.factor u : Int)
+
+/-- `Frequency(1.0 / x, time_unit=u)` for an interval of `x` units: `(1.0/x) * (float(10**12)/tuc[u])` -/
+def freqOfPeriod (u : TimeUnit) (x : Rat) : Rat :=
+  F64.fmul (F64.fdiv 1 x) (F64.fdiv (F64.ofInt (10 ^ 12)) (cf u))
+
+/-- `.sampling_rate` computed by the constructor from an interval given as a time object of unit `u`:
+`Frequency(1.0 / (float(interval) / c_f), time_unit=u)` -/
+def rateOfInterval (u : TimeUnit) (ps : Int) : Rat :=
+  freqOfPeriod u (F64.fdiv (F64.ofInt ps) (cf u))
+
+/-- `Frequency.to_period()`: `np.int64((1 / self) * 1e12)` — truncation, not rounding -/
+def toPeriod (r : Rat) : Int := F64.trunc (F64.fmul (F64.fdiv 1 r) (F64.ofInt (10 ^ 12)))
+
+/-- `TimeArray(x, time_unit=u)` for a binary64 `x` -/
+def psOfFloat (u : TimeUnit) (x : Rat) : Int := F64.rint (F64.fmul x (cf u))
+
+/-- interval in ps that the constructor derives from a rate alone in unit `u`:
+`TimeArray(rate.to_period() / float(c_f), time_unit=u)` -/
+def quantise (u : TimeUnit) (r : Rat) : Int :=
+  psOfFloat u (F64.fdiv (F64.ofInt (toPeriod r)) (cf u))
+
+/-- a sampling interval argument -/
+inductive IvArg where
+  | time (ps : Int) (u : TimeUnit)   -- a time object
+  | num (x : Rat)                    -- a bare binary64 number, read in the series' unit
+  deriving DecidableEq, Repr
+
+/-- `TimeSeries(data, sampling_interval=…, sampling_rate=…, t0=…, time_unit=…)` with `n` samples.
+`t0` is a time object (ps) or absent (→ 0); `unit` is already defaulted by the caller (`'s'`). -/
+def mkSeries (iv : Option IvArg) (rate : Option Rat) (t0 : Option Int) (unit : TimeUnit) (n : Nat) :
+    Except Err Series :=
+  match iv, rate with
+  | some (.time ps u), none =>
+      .ok { ax := { t0 := t0.getD 0, dt := ps, n := n, unit := unit }, fs := rateOfInterval u ps }
+  | some (.num x), none =>
+      .ok { ax := { t0 := t0.getD 0, dt := psOfFloat unit x, n := n, unit := unit }, fs := freqOfPeriod unit x }
+  | none, some r =>
+      .ok { ax := { t0 := t0.getD 0, dt := quantise unit r, n := n, unit := unit }, fs := r }
+  | _, _ => .error .valueError
+
+/-- run-time parameters of a construction site -/
+structure Params where
+  offset : Int := 0
+  lenEt : Int := 0
+  tr : Option IvArg := none
+  deriving Repr
+
+def symVal (src : Series) (p : Params) : Sym → Int
+  | .one => 1
+  | .n => src.ax.n
+  | .nMinus1 => (src.ax.n : Int) - 1
+  | .offset => p.offset
+  | .lenEt => p.lenEt
+
+def argInterval (src : Series) (p : Params) : Arg → Except Err (Option IvArg)
+  | .absent => .ok none
+  | .field .interval => .ok (some (.time src.ax.dt src.ax.unit))
+  | .param => match p.tr with
+    | some v => .ok (some v)
+    | none => .error .unsupported
+  | _ => .error .unsupported
+
+def argRate (src : Series) : Arg → Except Err (Option Rat)
+  | .absent => .ok none
+  | .field .rate => .ok (some src.fs)
+  | _ => .error .unsupported
+
+def argT0 (src : Series) (p : Params) : Arg → Except Err (Option Int)
+  | .absent => .ok none
+  | .field .t0 => .ok (some src.ax.t0)
+  | .scaled neg s => .ok (some ((if neg then -1 else 1) * symVal src p s * src.ax.dt))
+  | _ => .error .unsupported
+
+def argUnit (src : Series) : Arg → Except Err TimeUnit
+  | .absent => .ok .s                 -- `time_unit='s'` is the constructor's default
+  | .field .unit => .ok src.ax.unit
+  | _ => .error .unsupported
+
+/-- the series a construction site of the given shape returns for source `src`, with `nOut` samples -/
+def outputSeries (sh : Shape) (src : Series) (p : Params) (nOut : Nat) : Except Err Series := do
+  let iv ← argInterval src p sh.interval
+  let r ← argRate src sh.rate
+  let t0 ← argT0 src p sh.t0
+  let u ← argUnit src sh.unit
+  mkSeries iv r t0 u nOut
+
+def outputAxis (sh : Shape) (src : Series) (p : Params) (nOut : Nat) : Except Err Axis :=
+  (outputSeries sh src p nOut).map (·.ax)
+
+def findCall (key : String) : Option SeriesCall :=
+  Generated.SeriesCalls.all.find? (fun c => c.key = key)
+
+/-- a chain of construction sites (e.g. `fir`: the intermediate `sig`, then `filtfilt`) -/
+def chain (p : Params) : List (String × Nat) → Series → Except Err Series
+  | [], s => .ok s
+  | (k, nOut) :: rest, s =>
+    match findCall k with
+    | none => .error .unknownCall
+    | some c => do
+      let s' ← outputSeries c.shape s p nOut
+      chain p rest s'
+
+/-! ### concatenation and voxel selection (polymorphic in the sample type) -/
+
+/-- `np.concatenate(data, -1)` for a list of (channels × time) blocks with equal channel counts -/
+def concatData {α} (ds : List (List (List α))) : List (List α) :=
+  match ds with
+  | [] => []
+  | d :: _ => (List.range d.length).map fun c => (ds.map fun b => b.getD c []).flatten
+
+/-- `concatenate_time_series`: the interval is read from the last series; t0 and unit are not passed -/
+def concatenate {α} (ss : List (Series × List (List α))) (sh : Shape) : Except Err (Series × List (List α)) :=
+  match ss.getLast? with
+  | none => .error .valueError
+  | some (last, _) =>
+    let data := concatData (ss.map (·.2))
+    let n := (data.getD 0 []).length
+    (outputSeries sh last {} n).map fun s => (s, data)
+
+/-- a C-ordered 4-d volume (x, y, z, t) -/
+structure Vol (α : Type) where
+  X : Nat
+  Y : Nat
+  Z : Nat
+  T : Nat
+  flat : Array α
+
+def Vol.voxel {α} [Inhabited α] (v : Vol α) (x y z : Nat) : List α :=
+  (List.range v.T).map fun t => v.flat[((x * v.Y + y) * v.Z + z) * v.T + t]!
+
+/-- `data[coords[0], coords[1], coords[2]]`: row i is the series of voxel (c0[i], c1[i], c2[i]) -/
+def selectVoxels {α} [Inhabited α] (v : Vol α) (c0 c1 c2 : List Nat) : List (List α) :=
+  (List.range c0.length).map fun i => v.voxel (c0.getD i 0) (c1.getD i 0) (c2.getD i 0)
+
+/-! ### line protocol -/
+open Nitime.Proto
+
+def parseRatHex? (s : String) : Option Rat :=
+  if s.startsWith "x" then (parseHex? (s.drop 1).toString).map F64.ofBits else none
+
+def showRatHex (q : Rat) : String := "x" ++ hex64 (F64.toBits q)
+
+def parseIv? (s : String) : Option (Option IvArg) :=
+  if s = "-" then some none else
+  match s.splitOn ":" with
+  | ["T", ps, u] => match ps.toInt?, TimeUnit.ofString? u with
+    | some ps, some u => some (some (.time ps u))
+    | _, _ => none
+  | [x] => (parseRatHex? x).map fun q => some (.num q)
+  | _ => none
+
+def showSeries (s : Series) : String :=
+  s!"ok {s.ax.unit.name} {s.ax.t0} {s.ax.dt} {s.ax.n} {showRatHex s.fs} {timeAt s.ax 0} {timeAt s.ax (s.ax.n - 1)}"
+
+def showErr : Err → String
+  | .valueError => "err ValueError"
+  | .unsupported => "err unsupported-descriptor"
+  | .unknownCall => "err unknown-call"
+
+def showExcept (r : Except Err Series) : String :=
+  match r with
+  | .ok s => showSeries s
+  | .error e => showErr e
+
+def chunk {α} (n : Nat) (xs : List α) : List (List α) :=
+  if n = 0 then [] else
+  (List.range (xs.length / n)).map fun i => (xs.drop (i * n)).take n
+
+def handle (args : List String) : String :=
+  match args with
+  -- axis <keys> <nOuts> <unit> <t0> <dt> <n> <fs> <offset> <lenEt> <tr>
+  | ["axis", keys, nouts, u, t0, dt, n, fs, off, le, tr] =>
+    let r : Option String := do
+      let u ← TimeUnit.ofString? u
+      let t0 ← t0.toInt?
+      let dt ← dt.toInt?
+      let n ← n.toNat?
+      let fs ← parseRatHex? fs
+      let off ← off.toInt?
+      let le ← le.toInt?
+      let tr ← parseIv? tr
+      let nouts ← parseNatList? nouts
+      let ks := splitList keys
+      if ks.length ≠ nouts.length then none else
+      let src : Series := { ax := { t0 := t0, dt := dt, n := n, unit := u }, fs := fs }
+      pure (showExcept (chain { offset := off, lenEt := le, tr := tr } (ks.zip nouts) src))
+    r.getD "bad-op"
+  -- mk <unit> <iv> <t0 ps|-> <n>      a series built directly by the constructor
+  | ["mk", u, iv, t0, n] =>
+    match TimeUnit.ofString? u, parseIv? iv, n.toNat? with
+    | some u, some iv, some n =>
+      let t0v : Option Int := if t0 = "-" then none else t0.toInt?
+      showExcept (mkSeries iv none t0v u n)
+    | _, _, _ => "bad-op"
+  -- mkrate <unit> <rate> <n>
+  | ["mkrate", u, r, n] =>
+    match TimeUnit.ofString? u, parseRatHex? r, n.toNat? with
+    | some u, some r, some n => showExcept (mkSeries none (some r) none u n)
+    | _, _, _ => "bad-op"
+  -- rate <unit> <ps>: the float the constructor stores, and the exact Fs
+  | ["rate", u, ps] =>
+    match TimeUnit.ofString? u, ps.toInt? with
+    | some u, some ps =>
+      s!"ok {showRatHex (rateOfInterval u ps)} {showRat (rateHz { t0 := 0, dt := ps, n := 1, unit := u })}"
+    | _, _ => "bad-op"
+  -- concat <C> <lens> <dts> <units> <t0s> <data tokens, all blocks row-major>
+  | ["concat", c, lens, dts, us, t0s, data] =>
+    match c.toNat?, parseNatList? lens, parseIntList? dts, (splitList us).mapM TimeUnit.ofString?, parseIntList? t0s with
+    | some c, some lens, some dts, some us, some t0s =>
+      let toks := splitList data
+      -- cut the token stream into blocks of c*len
+      let blocks := (lens.foldl (fun (acc : List (List (List String)) × List String) len =>
+          (acc.1 ++ [chunk len (acc.2.take (c * len))], acc.2.drop (c * len))) ([], toks)).1
+      let ss : List (Series × List (List String)) :=
+        (List.range lens.length).map fun i =>
+          ({ ax := { t0 := t0s.getD i 0, dt := dts.getD i 0, n := lens.getD i 0, unit := us.getD i .s },
+             fs := rateOfInterval (us.getD i .s) (dts.getD i 0) }, blocks.getD i [])
+      match findCall "concatenate_time_series.0" with
+      | none => showErr .unknownCall
+      | some call =>
+        match concatenate ss call.shape with
+        | .ok (s, d) => showSeries s ++ " " ++ joinList d.flatten
+        | .error e => showErr e
+    | _, _, _, _, _ => "bad-op"
+  -- coords <X> <Y> <Z> <T> <c0> <c1> <c2> <flat volume tokens>
+  | ["coords", x, y, z, t, c0, c1, c2, data] =>
+    match x.toNat?, y.toNat?, z.toNat?, t.toNat?, parseNatList? c0, parseNatList? c1, parseNatList? c2 with
+    | some x, some y, some z, some t, some c0, some c1, some c2 =>
+      let v : Vol String := { X := x, Y := y, Z := z, T := t, flat := (splitList data).toArray }
+      let rows := selectVoxels v c0 c1 c2
+      s!"ok {rows.length} {t} {joinList rows.flatten}"
+    | _, _, _, _, _, _, _ => "bad-op"
+  | _ => "bad-op"
 
 end Nitime.C15
